@@ -43,7 +43,9 @@ ASSUMPTIONS = ["DBOS half runs on the emulated dbos package (contract in stubs/d
 EXPECTED_PROBES = ["store-latency-arm", "send-to-released-run", "send-at-release-instant", "two-senders-same-instant", "released", "release-while-working",
                    "lifecycle-latency-arm", "sender-polled-while-releasing", "sends-through-both-replicas", "resumed", "releaser-crashed", "crash-with-lifecycle-releasing"]
 LEVEL_TEXT = "Seeded exploration of sender instants around release/reload; safety rules at every runner start/exit, liveness (event processed) at quiescence."
-LEVEL_NOTE = "Trusted: simulator loop/clocks, runner registry (subclass of the private _ControlLoopRunner, behaviour unchanged)."
+LEVEL_NOTE = ("Trusted: simulator loop/clocks, runner registry (subclass of the private _ControlLoopRunner, behaviour unchanged); for the DBOS "
+              "half additionally the dbos emulator (stubs/dbos, contract self-test tools/dbos_selftest.py), the SQLite crash fence and the "
+              "lifecycle latency proxy (its calls are the real SqliteRunLifecycleLock's).")
 
 CFG = {"driver": "finish", "backends": ["sqlite", "memory"], "quiesce_gap": 500.0, "grid": [0, 1, 1, 2, 3], "p_wait": 60,
        "allow_send_event": True, "retry_delays": [0, 0, 1, 2], "log_mailbox": True}
